@@ -16,6 +16,7 @@ SYNTH = [
     "pack:2 l3:1 numa:2 core:1 pu:2",
     "numa:3(memory=4096) pu:1",
     "pack:1 pu:1",
+    "pack:2 [numa(memorysidecachesize=1MB)] pu:2",
     "pack:2 [numa(memory=1000)] [numa(memory=2000)] core:2 pu:1",
     "group:2 pack:2 l2:1 l1i:1 pu:1",
 ]
@@ -168,7 +169,7 @@ def nonrepr_edit(rng, st):
                     "nameunset", "nameset", "cachesize", "tinfoadd", "tinfodel", "cpukind", "dist", "mattr", "mattr2", "memraw",
                     "attrpoke", "tinfoname", "mattrreg", "mattrsame", "mattro", "distsub", "cpukindi", "allownodeclr"])
     if c == "attrpoke":
-        cand = [q for q in st.keys if st.o[q]["type"] in (5, 6, 7, 8, 9, 10, 11, 12, 13, 16, 17, 18)]
+        cand = [q for q in st.keys if st.o[q]["type"] in (5, 6, 7, 8, 9, 10, 11, 12, 13, 15, 16, 17, 18)]   # every type that has attributes but NUMA
         if cand:
             q = rng.choice(cand)
             return "b attrpoke %d %d %d %d" % (q[0], q[1], rng.randint(0, 3), rng.randint(1, 255))
@@ -310,6 +311,7 @@ TOPO_PAIRS = [
     ("pack:2 pu:2", "pack:2 pu:2"),
     ("pack:2 pu:2", "numa:2 pu:2"),
     ("pack:2 l2:1 pu:2", "pack:2 l2:1(size=12345) pu:2"),
+    ("pack:2 [numa(memorysidecachesize=1MB)] pu:2", "pack:2 [numa(memorysidecachesize=2MB)] pu:2"),
     ("group:2 pu:2", "pack:2 pu:2"),
     ("pack:2 pu:2", "pack:2 pu:3"),
     ("numa:2(memory=1000) pu:2", "numa:2(memory=2000) pu:2"),
